@@ -529,6 +529,15 @@ def gen_C06(rng, tier):
                             ["step %s %s" % (xtok(gen.header_line(c).encode()), ",".join(rec_tok(b) for b in c["blocks"]))]))
     for _ in range(n // 2):
         groups.append(group("line", "no_panic", ["pline " + xtok(gen_line_text(rng))]))
+    for L in (127, 128, 129, 8191, 8192, 8193, 20000):
+        # long lines, ASCII and with multi-byte characters around the length
+        for ch in ("n", "\u00e9", "\u20ac"):
+            name = (ch * L)[:L]
+            for line in ("chain 1 %s 9 + 0 9 b 9 + 0 9 1" % name, "chain 1 %s 9 + 0 9 b 9 + 0 9 x" % name, "x" + name, name + "\t1\t2"):
+                for pad in ("", "a", "ab"):
+                    data = (pad + line).encode("utf-8") + b"\n9\n"
+                    groups.append(group("long-line", "no_panic", ["sections " + gen.src_tok(data), "pline " + xtok((pad + line).encode("utf-8")),
+                                                                  build_case(data, [])]))
     return groups
 
 
@@ -697,6 +706,14 @@ def gen_C12(rng, tier):
         d = gen.render_lines(lines_txt[:-1] if (lines_txt and not fin) else lines_txt, eol, fin)
         groups.append(group("raw", "c12_raw", ["raw " + gen.src_tok(d, gen.composition(rng, d, rng.choice(["one", "rand", "two"])))],
                             params={"data": d.hex()}))
+        if rng.random() < 0.08:
+            L = rng.choice([8191, 8192, 8193, 16384, 40000])
+            long_lines = [("chain 1 %s 9 + 0 9 b 9 + 0 9 1" % ("n" * L)), "9", "", "x" * L]
+            for e in ("\n", "\r\n"):
+                dl = gen.render_lines(long_lines, e, True)
+                groups.append(group("raw-long-line", "c12_raw", ["raw " + gen.src_tok(dl, gen.composition(rng, dl, rng.choice(["one", "two", "rand"])))],
+                                    params={"data": dl.hex()}))
+                groups.append(group("variants-long-line", "none", ["sections " + gen.src_tok(dl), "lines " + gen.src_tok(dl)]))
     return groups
 
 
@@ -893,11 +910,24 @@ def gen_C17(rng, tier):
                 lines.insert(rng.randrange(len(lines)), rng.choice([b"junk", b"", b"7"]))
         else:
             kinds, lines = gen_line_seq(rng, maxlen=10)
+        fam = "history"
+        if rng.random() < 0.06 and lines:
+            # one very long line (buffer-size boundaries): a header with a long contig name, or a long junk line
+            L = rng.choice([4090, 8180, 8191, 8192, 8193, 10000, 16384, 70000])
+            k = rng.randrange(len(lines))
+            if lines[k].startswith(b"chain "):
+                fs = lines[k].split(b" ")
+                if len(fs) == 13:
+                    fs[2] = b"n" * L
+                    lines[k] = b" ".join(fs)
+            else:
+                lines[k] = b"9" * L if rng.random() < 0.5 else lines[k]
+            fam = "history-long-line"
         eol = rng.choice([b"\n", b"\r\n"])
         fin = rng.random() < 0.6 or (lines and lines[-1] == b"")
         data = eol.join(lines) + (eol if (fin and lines) else b"")
         ops = "".join(rng.choice("rplssssn") for _ in range(rng.randint(1, 14)))
-        groups.append(group("history", "c17_ops", ["ops %s %s" % (gen.src_tok(data), ops)],
+        groups.append(group(fam, "c17_ops", ["ops %s %s" % (gen.src_tok(data), ops)],
                             params={"data": data.hex(), "ops": ops}))
     return groups
 
